@@ -263,6 +263,57 @@ pub fn replay_pair(sub: &'static str) -> impl Fn(&Value, &Env) -> CaseResult {
     }
 }
 
+/// Complete matrix of comparison operators over a pool of edge values (zero in
+/// its spellings, magnitudes next to zero, huge values, every type, values
+/// nested one level), through document fields and through literals.
+fn comparison_matrix(_env: &Env, st: &mut Stats) -> Vec<Failure> {
+    let pool: Vec<&str> = vec![
+        "null", "true", "false", "0", "0.0", "-0.0", "1", "1.0", "-1", "1e-17", "-1e-17", "5e-324", "3e-200", "2.5e-16", "1e308", "-1e308", "9007199254740992",
+        "18446744073709551615", "\"\"", "\"a\"", "\"0\"", "[]", "[0]", "[1e-17]", "[0,1]", "{}", "{\"a\":0}", "{\"a\":1e-17}", "{\"k\":[0,1]}", "{\"k\":[1e-30,1]}",
+    ];
+    let ops = ["==", "!=", "<", "<=", ">", ">="];
+    let mut fails = vec![];
+    for l in &pool {
+        for r in &pool {
+            let (lj, rj) = (J::parse(l).unwrap(), J::parse(r).unwrap());
+            if refeval::has_near_tie(&lj, &rj) {
+                continue;
+            }
+            let doc = format!("{{\"l\":{},\"r\":{}}}", l, r);
+            let docj = J::parse(&doc).unwrap();
+            for op in ops {
+                for text in [format!("l {} r", op), format!("`{}` {} `{}`", l, op, r), format!("[l, r][?@ {} `{}`]", op, r)] {
+                    let tree = match refparse::parse_strict(&text) {
+                        Ok(t) => t,
+                        Err(e) => {
+                            fails.push(Failure::new("comparison-matrix", "harness-ref", e.msg, json!({"expression": text})));
+                            return fails;
+                        }
+                    };
+                    st.eval();
+                    match compare("comparison-matrix", &tree, &text, &docj, &doc, st, false) {
+                        Ok(_) => {
+                            st.nontrivial(&format!("{}|{}", text, doc));
+                        }
+                        Err(f) => {
+                            fails.push(f);
+                            if fails.len() > 10 {
+                                return fails;
+                            }
+                        }
+                    }
+                }
+            }
+        }
+    }
+    st.sample(|| json!({"expression": "l == r", "document": "{\"l\":0,\"r\":1e-17}"}));
+    fails
+}
+
+fn replay_matrix(case: &Value, env: &Env) -> CaseResult {
+    replay_pair("comparison-matrix")(case, env)
+}
+
 /// Towers: one construct nested / chained 1..16 times around a small random
 /// leaf, against documents nested the same way (depth-dependent behaviour).
 fn towers(src: &mut Src, st: &mut Stats, _env: &Env) -> CaseResult {
@@ -449,6 +500,7 @@ pub fn property() -> Property {
                 keep_unreproducible: false,
             }),
             Sub::Bytes(BytesSub { name: "towers", f: towers, max_len: 64, quick: Budget { threads: 8, cases: 3000 }, thorough: Budget { threads: 16, cases: 150_000 }, keep_unreproducible: false }),
+            Sub::Custom(CustomSub { name: "comparison-matrix", run: comparison_matrix, replay: replay_matrix }),
             Sub::Custom(CustomSub { name: "cross", run: cross, replay: replay_cross }),
             Sub::Custom(CustomSub { name: "repeats", run: repeats, replay: replay_repeat }),
             Sub::Custom(CustomSub { name: "fuzz-eval_diff", run: fuzz_run, replay: fuzz_replay }),
